@@ -1,4 +1,5 @@
 import Fpdec.Kernels.FromStr
+import Fpdec.Kernels.Parse
 import Fpdec.Kernels.Swar
 import Fpdec.Lemmas.Parse
 import Fpdec.Props.C06_Sites
@@ -72,5 +73,19 @@ theorem kernel_chunk_to_u64 (prof : Profile) (c : Nat) :
 /-- `impl FromStr for Decimal` (everything after the parser call), as translated on this run -/
 theorem kernel_decimal_from_str (prof : Profile) (lit : List Nat) : Gen.K.decimal_from_str prof lit = fromStr prof lit :=
   Kernels.decimal_from_str_eq prof lit
+
+/-- the parser itself (`fpdec-core/src/parser.rs`: cursor methods, `skip_leading_zeroes`, `accum_coeff`, `accum_exp` — `while` and
+    `while let` loops as fuel-bounded recursion — and `str_to_dec`), as translated on this run; the only hypothesis is Rust's own
+    bound on the length of a slice -/
+theorem kernel_lit_skip_leading_zeroes (prof : Profile) (s : List Nat) (h : s.length < 2 ^ 64) :
+    Gen.K.lit_skip_leading_zeroes prof s = .ok (skipLeadingZeroes s) := Kernels.lit_skip_leading_zeroes_eq prof s h
+theorem kernel_lit_accum_coeff (prof : Profile) (s : List Nat) (coeff : Nat) (h : s.length < 2 ^ 64) :
+    Gen.K.lit_accum_coeff prof s coeff = .ok ((accumCoeff coeff s).2.1, (accumCoeff coeff s).1, (accumCoeff coeff s).2.2) :=
+  Kernels.lit_accum_coeff_eq prof s coeff h
+theorem kernel_lit_accum_exp (prof : Profile) (s : List Nat) (exp : Int) (h : s.length < 2 ^ 64) :
+    Gen.K.lit_accum_exp prof s exp = .ok ((accumExp exp s).2, (accumExp exp s).1, s.length - (accumExp exp s).2.length) :=
+  Kernels.lit_accum_exp_eq prof s exp h
+theorem kernel_str_to_dec (prof : Profile) (lit : List Nat) (h : lit.length < 2 ^ 63) :
+    Gen.K.str_to_dec prof lit = strToDec prof lit := Kernels.str_to_dec_eq prof lit h
 
 end Fpdec.Props.C06
